@@ -208,6 +208,8 @@ MENUS = [
     # (objects pool, properties pool): representable in every format
     (['X', 'x y', '1', 'Ünï', 'o.o', 'B'], ['.', '0', 'a b', 'ß', 'XX', '-']),
     # csv / python-literal only: delimiters, quotes, line breaks, leading/trailing blanks, '|', '#'
+    # labels that are themselves cell symbols, first in line (symbol sniffing from the first csv row)
+    (['1', 'X', '0', 'o'], ['x', '.', '10', 'p']),
     (['l1\r\nl2', 'a,b "q"', " it's ", 'l1\nl2', 'a|b', 'x\ry'], ['p\rq', '#c,', 'x\\y\n', "'", '"', '語']),
 ]
 
@@ -242,7 +244,7 @@ def unit_pertable(args, prefix=(), max_depth=None):
     r = common.run_paths(body, prefix=prefix, max_depth=max_depth, stop_after_cex=3, deadline_s=args.get('deadline', 240))
     r['encoded'] = _encoded(concepts)
     r['bounds'] = f'all {n}x{m} tables (symbolic cells), labels {objs} / {props}; formats: ' + \
-        ('table, cxt, wiki-table, csv (X/blank and 1/0), python-literal, fimi' if menu == 0 else 'csv, python-literal')
+        ('table, cxt, wiki-table, csv (X/blank and 1/0), python-literal, fimi' if menu != 2 else 'csv, python-literal')
     return r
 
 
